@@ -1,6 +1,7 @@
 import Model.Base.Proto
 import Model.Num.Atof
 import Model.Num.Decimal
+import Model.Num.DecSlow
 import Model.Spec.NumText
 
 namespace Driver.C03
@@ -61,6 +62,16 @@ def handle (l : Line) : IO Unit := do
       else "-"
     let hxs := if r.ok && r.hex then fr (atofHex r.mant r.exp r.neg r.trunc) else "-"
     IO.println s!"obs {id} sp={sp} rf={rf} ex={ex} hx={hxs}"
+    -- the mirrored slow path, and the self-check against the specified slow path of the model
+    let slm := match decSet num with
+      | none => "syntax"
+      | some d =>
+        let r := floatBits d
+        s!"{F64.toHex (F64.canonNaN r.bits)}:{if r.ovf then "range" else "ok"}:{b01 r.trunc}"
+    let a := slowPathMirror num
+    let b := slowPath num
+    let chk := if a.val == b.val && a.err == b.err then "ok" else s!"BAD:{fr a}:{fr b}"
+    IO.println s!"obs {id} sl={slm} chk={chk}"
     if l.getD "spec" == "1" then
       let sv := parseFloatSpec num
       let si := parseIntSpec iters
@@ -98,6 +109,22 @@ def handle (l : Line) : IO Unit := do
       let k := dp.toNat
       let r := if k ≥ ds.length then v * 10 ^ (k - ds.length) else F64.rne v (10 ^ (ds.length - k))
       IO.println s!"spec {id} n={r}"
+  | "dshift" =>
+    let ds := if l.getD "d" == "-" then [] else (l.bytes? "d").getD []
+    let dp := ((l.getD "dp").toInt?).getD 0
+    let k := ((l.getD "k").toInt?).getD 0
+    let a : Dc := { d := ds, dp, trunc := l.getD "trunc" == "1" }
+    let r := a.shift k
+    IO.println s!"obs {id} d={if r.d.isEmpty then "-" else Bytes.toHex r.d} dp={r.dp} trunc={b01 r.trunc}"
+  | "dfb" =>
+    let ds := if l.getD "d" == "-" then [] else (l.bytes? "d").getD []
+    let dp := ((l.getD "dp").toInt?).getD 0
+    let a : Dc := { d := ds, dp, neg := l.getD "neg" == "1", trunc := l.getD "trunc" == "1" }
+    let r := floatBits a
+    IO.println s!"obs {id} bits={F64.toHex r.bits} ovf={b01 r.ovf} trunc={b01 r.trunc}"
+  | "cheats" =>
+    let tab := leftcheats.map fun (d, c) => s!"{d}:{if c.isEmpty then "-" else Bytes.toHex c}"
+    IO.println s!"obs {id} n={leftcheats.length} tab={",".intercalate tab}"
   | "table" =>
     let tab := (List.range pow10TableLen).map fun k => F64.toHex (float64pow10 k)
     IO.println s!"obs {id} n={pow10TableLen} tab={",".intercalate tab}"
